@@ -46,6 +46,10 @@ class E:
 def fresh_value(rng, used):
     while True:
         v = rng.choice([rng.randint(0, 500), "s%d" % rng.randint(0, 500), (rng.randint(0, 50), rng.randint(0, 50))])
+        if v in (0, 3, 5, 7, "x"):
+            # field defaults of the vp classes: a keyword argument whose observed value equals the default is
+            # legitimately dropped by `update` together with an unmanaged expression it holds (thorough-tier false alarm)
+            continue
         if repr(v) not in used:
             used.add(repr(v))
             return v
@@ -290,7 +294,7 @@ def subsets_for(rng, tier):
 
 def run_shard(args):
     tier = args.tier
-    ncases = {"quick": 40, "thorough": 900}[tier]
+    ncases = {"quick": 40, "thorough": 350}[tier]
     C = {"files": 0, "runs": 0, "crashed": 0, "unmanaged_checked": 0, "consistent_sites_reexecuted": 0, "by_kind": {}, "warnings_seen": {}, "crash_kinds": {}, "sites_with_changes": 0}
     out = {"evaluations": 0, "signatures": set(), "samples": [], "violations": [], "counters": C, "inconclusive": []}
     for c in range(ncases):
